@@ -318,6 +318,47 @@ class Repo:
             cur = cur.nested[p]
         return cur
 
+    @staticmethod
+    def is_private_helper(qual) -> bool:
+        last = qual.split(":")[-1].split(".")[-1]
+        return last.startswith("_") and not (last.startswith("__") and last.endswith("__"))
+
+    def fn_opt(self, qual) -> Optional[Func]:
+        """a private helper a rule would like to look at directly: None when it no longer exists under that name (private
+        names are not API - renaming one is not a change of behaviour; the rule's questions through public entry points stand).
+        A public name that vanishes still fails the run."""
+        try:
+            return self.fn(qual)
+        except AnchorMissing:
+            if self.is_private_helper(qual):
+                self.__dict__.setdefault("renamed_private", set()).add(qual)
+                return None
+            raise
+
+    def where(self, qual):
+        """source object a report line is attributed to.  A private helper that no longer exists under the recorded name is
+        attributed to its class (or module): the obligation was decided through the public entry points, the helper's name
+        was a label."""
+        try:
+            return self.fn(qual)
+        except AnchorMissing:
+            pass
+        try:
+            return self.cls(qual)
+        except (AnchorMissing, AnalysisError):
+            pass
+        if self.is_private_helper(qual):
+            self.__dict__.setdefault("renamed_private", set()).add(qual)
+            mod, rest = qual.split(":")
+            parts = rest.split(".")
+            if len(parts) >= 2:
+                try:
+                    return self.cls(f"{mod}:{parts[0]}")
+                except (AnchorMissing, AnalysisError):
+                    pass
+            return (self.module(mod).relpath, 1)
+        raise AnchorMissing(f"anchored construct vanished: {qual} not found")
+
     def has_fn(self, qual) -> bool:
         try:
             self.fn(qual)
